@@ -47,7 +47,10 @@ def m_length_validate(ex, st, recv, args, kw):
 def setup_validated(fixed):
     def setup(ex, st):
         value = fresh(STR, "value")[0]; allowed_empty = fresh(BOOL, "allowed_empty")[0]; width = fresh(INT, "width")[0]; st.pc.append(width.z >= 1)
-        df = Ref("DataFormat"); st.heap[df.oid] = {"_format": "fixed" if fixed else "delimited", "_allowed_characters": None}
+        fmt = "fixed"
+        if not fixed:
+            fmt = fresh(STR, "format")[0]; st.pc.append(fmt.z != z3.StringVal("fixed"))      # delimited, excel, ods: one run for all of them (non-interference, C17)
+        df = Ref("DataFormat"); st.heap[df.oid] = {"_format": fmt, "_allowed_characters": None}
         length = Ref("Range")
         st.heap[length.oid] = {"_lower_limit": width if fixed else fresh(Opt(INT), "lo")[0], "_upper_limit": width if fixed else fresh(Opt(INT), "hi")[0], "_items": Opaque()}
         self = Ref("TextFieldFormat")
